@@ -1670,3 +1670,101 @@ Proof.
     specialize (Hb k (or_introl eq_refl)). f_equal. lia.
   - cbn [post_sub]. rewrite !app_assoc. apply last_last.
 Qed.
+
+(* ================================================================== *)
+(* a connected network has an outer-product-free tree over all its tensors *)
+
+Section Grow.
+Variable nodes : list legs.
+Variable app : list nat.
+Notation n := (length nodes).
+Hypothesis Happ : forall j, j < length app -> cnt_all nodes j <= appn app j.
+Hypothesis Hconn : connected_prop nodes (length app).
+
+Lemma cnt_fold_bit j x (l : list nat) : NoDup l ->
+  fold_right (fun i a => if N.testbit (bit j) (N.of_nat i) then leg_count x (nth i nodes []) + a else a) 0 l
+  = if memb j l then leg_count x (nth j nodes []) else 0.
+Proof.
+  induction l as [|i l IH]; intros Hnd; [reflexivity|].
+  inversion Hnd as [|? ? Hni Hnd']; subst. cbn [fold_right]. rewrite (IH Hnd'), bit_testbit.
+  unfold memb. cbn [existsb]. fold (memb j l).
+  destruct (N.eqb_spec (N.of_nat j) (N.of_nat i)) as [E|E].
+  - apply Nat2N.inj in E. subst i. rewrite Nat.eqb_refl. cbn [orb].
+    destruct (memb j l) eqn:M; [|lia].
+    exfalso. apply Hni. unfold memb in M. apply existsb_exists in M. destruct M as (y & Hy & Ey).
+    apply Nat.eqb_eq in Ey. subst. exact Hy.
+  - destruct (Nat.eqb_spec j i) as [->|Hne]; [congruence|]. reflexivity.
+Qed.
+
+Lemma cnt_bit j x : j < n -> cnt nodes (bit j) x = leg_count x (nth j nodes []).
+Proof.
+  intros Hj. unfold cnt. rewrite cnt_fold_bit by apply seq_NoDup.
+  assert (M : memb j (seq 0 n) = true).
+  { unfold memb. apply existsb_exists. exists j. split; [apply in_seq; lia | apply Nat.eqb_refl]. }
+  rewrite M. reflexivity.
+Qed.
+
+Lemma land_bit_0 S j : N.testbit S (N.of_nat j) = false -> N.land S (bit j) = 0%N.
+Proof.
+  intros H. apply N.bits_inj. intros k. rewrite N.land_spec, N.bits_0, bit_testbit.
+  destruct (N.eqb_spec (N.of_nat j) k) as [<-|_]; [rewrite H; reflexivity | apply andb_false_r].
+Qed.
+
+Lemma grow_step S j x : j < n -> N.testbit S (N.of_nat j) = false -> x < length app ->
+  0 < cnt nodes S x -> 0 < leg_count x (nth j nodes []) ->
+  shares nodes app S (bit j) = true.
+Proof.
+  intros Hj Hb Hx Hc Hl. unfold shares. apply existsb_exists. exists x. split; [apply in_seq; lia|].
+  pose proof (land_bit_0 S j Hb) as Hd.
+  assert (Hle : cnt nodes S x + cnt nodes (bit j) x <= appn app x).
+  { rewrite <- (cnt_lor nodes S (bit j) x Hd). etransitivity; [apply cnt_le_all | apply Happ, Hx]. }
+  rewrite (cnt_bit j x Hj) in Hle. unfold surv. rewrite (cnt_bit j x Hj).
+  apply andb_true_iff. split; apply andb_true_iff; split; apply Nat.ltb_lt; lia.
+Qed.
+
+Lemma proper_exists t S m : vtree n t S -> nleaves t = m -> m < n ->
+  exists i, i < n /\ N.testbit S (N.of_nat i) = false.
+Proof.
+  intros Hv Hm Hlt. apply vtree_iff in Hv. destruct Hv as (Hnd & Hb & ->).
+  destruct (existsb (fun i => negb (N.testbit (mask t) (N.of_nat i))) (seq 0 n)) eqn:E.
+  - apply existsb_exists in E. destruct E as (i & Hi & Hn). apply in_seq in Hi.
+    exists i. split; [lia|]. destruct (N.testbit (mask t) (N.of_nat i)); [discriminate|reflexivity].
+  - exfalso.
+    assert (Hincl : incl (seq 0 n) (leaves t)).
+    { intros i Hi. destruct (N.testbit (mask t) (N.of_nat i)) eqn:Tb.
+      - apply mask_spec in Tb. rewrite Nat2N.id in Tb. exact Tb.
+      - assert (X : existsb (fun i => negb (N.testbit (mask t) (N.of_nat i))) (seq 0 n) = true).
+        { apply existsb_exists. exists i. split; [exact Hi | rewrite Tb; reflexivity]. }
+        congruence. }
+    pose proof (NoDup_incl_length (seq_NoDup n 0) Hincl) as Hlen.
+    rewrite seq_length, <- nleaves_length in Hlen. lia.
+Qed.
+
+Lemma outer_free_trees : 1 <= n -> forall m, 1 <= m <= n ->
+  exists t S, vtree n t S /\ nleaves t = m /\ outer_free nodes app t = true.
+Proof.
+  intros Hn m. induction m as [|m IH]; intros Hm; [lia|].
+  destruct (Nat.eq_dec m 0) as [->|Hm0].
+  - exists (Leaf 0), (bit 0). split; [constructor; lia|]. split; reflexivity.
+  - destruct IH as (t & S & Hv & Hnl & Hof); [lia|].
+    destruct (proper_exists t S m Hv Hnl ltac:(lia)) as (i & Hi & Hbi).
+    destruct (Hconn S (vtree_nonzero _ _ _ Hv)) as (j & x & Hj & Hbj & Hx & Hc & Hl).
+    + intros k Hk. apply vtree_iff in Hv. destruct Hv as (_ & Hb & ->).
+      apply Hb. apply mask_spec in Hk. rewrite Nat2N.id in Hk. exact Hk.
+    + exists i. auto.
+    + exists (Node t (Leaf j)), (N.lor S (bit j)).
+      split; [constructor; [exact Hv | constructor; exact Hj | apply land_bit_0, Hbj]|].
+      split; [cbn [nleaves]; lia|].
+      cbn [outer_free mask]. rewrite Hof, (vtree_mask _ _ _ Hv). cbn [andb].
+      apply (grow_step S j x Hj Hbj Hx Hc Hl).
+Qed.
+
+(* hence: an admissible tree over all tensors exists whatever search_outer is *)
+Theorem connected_has_outer_free_tree : 1 <= n ->
+  exists t, full_tree n t /\ outer_free nodes app t = true.
+Proof.
+  intros Hn. destruct (outer_free_trees Hn n ltac:(lia)) as (t & S & Hv & Hnl & Hof).
+  exists t. split; [exact (vtree_full _ _ _ Hv Hnl) | exact Hof].
+Qed.
+
+End Grow.
